@@ -80,11 +80,11 @@ Definition refMeta (vr : Timeline.rep) (loopMS : Z) (c : Timeline.tcfg) (F a : Z
   end.
 
 (** createAudioSegment (L596-625): reference lookup, recipe, createAudioSeg *)
-Definition audio_request (fx : bool) (vr : Timeline.rep) (loopMS : Z) (c : Timeline.tcfg) (F a : Z)
+Definition audio_request (vr : Timeline.rep) (loopMS : Z) (c : Timeline.tcfg) (F a : Z)
            (tab : list seg) (mode : Timeline.addressing) (segID nowMS : Z) : Timeline.outcome outseg :=
   match refMeta vr loopMS c F a mode segID nowMS with
   | Timeline.TOk m =>
-      lift (audio_segment fx (Timeline.newNr m) (Timeline.newTime m)
+      lift (audio_segment (Timeline.newNr m) (Timeline.newTime m)
                           (u64 (Timeline.newTime m + Timeline.newDur m))
                           (u64 (Timeline.repDuration vr)) (u64 (Timeline.ts vr)) F a tab)
   | Timeline.TTooEarly ms => Timeline.TTooEarly ms
